@@ -114,7 +114,7 @@ Qed.
 (* ---------- one step leaves every other object alone ---------- *)
 Definition target (o : op) : option nat :=
   match o with New _ _ => None | Copy _ => None | SetArray i _ => Some i | WriteRow i _ _ => Some i | SetConsts i _ => Some i
-             | Observe i => Some i | SetFitness i _ => Some i | SetAge i _ => Some i end.
+             | Observe i => Some i | SetFitness i _ => Some i | SetAge i _ => Some i | SetFlag i _ => Some i end.
 
 Lemma frame_app h ext g : ok_obj h g -> frame h (h ++ ext) g.
 Proof. intros (a & b & _); split; apply nth_app_lt; assumption. Qed.
@@ -131,7 +131,7 @@ Proof.
   { intros i g' N. rewrite nth_error_upd. destruct (Nat.eqb_spec j i); [congruence|exact Hj]. }
   assert (snoc : forall g', nth_error (objs w ++ [g']) j = Some gj).
   { intros g'. rewrite nth_error_app1 by exact Jlt. exact Hj. }
-  destruct o as [flag s|i s|i r c|i cs|i|i f|i a|i]; cbn [AGraphObj.step target] in *.
+  destruct o as [flag s|i s|i r c|i cs|i|i f|i a|i b|i]; cbn [AGraphObj.step target] in *.
   - unfold alloc; cbn. split; [apply snoc|]. rewrite <- app_assoc. split; [apply frame_app; exact OKj|rewrite app_length; lia].
   - destruct (nth_error (objs w) i) as [g|] eqn:Hi; [|repeat split; auto].
     unfold alloc, set_obj; cbn. split; [apply keep; congruence|]. split; [apply frame_app; exact OKj|rewrite app_length; lia].
@@ -153,6 +153,8 @@ Proof.
     assert (N : i <> j) by congruence.
     unfold set_obj; cbn; (split; [apply keep; exact N|]); subst h1;
       (split; [apply frame_app; exact OKj|rewrite app_length; lia]).
+  - destruct (nth_error (objs w) i) as [g|] eqn:Hi; [|repeat split; auto].
+    unfold set_obj; cbn. split; [apply keep; congruence|]. split; [apply frame_refl|lia].
   - destruct (nth_error (objs w) i) as [g|] eqn:Hi; [|repeat split; auto].
     unfold set_obj; cbn. split; [apply keep; congruence|]. split; [apply frame_refl|lia].
   - destruct (nth_error (objs w) i) as [g|] eqn:Hi; [|repeat split; auto].
@@ -209,7 +211,7 @@ Proof. unfold ok_obj, sep. intros (a & b & c) [X|[X1 X2]] [Y|[Y1 Y2]]; repeat sp
 Lemma step_inv w o : Inv w -> Inv (step w o).
 Proof.
   intros I. pose proof I as [I1 I2]. destruct w as [h objs0]. cbn [heap objs] in *.
-  destruct o as [flag s|i s|i r c|i cs|i|i f|i a|i]; cbn [AGraphObj.step heap objs].
+  destruct o as [flag s|i s|i r c|i cs|i|i f|i a|i b|i]; cbn [AGraphObj.step heap objs].
   - unfold alloc; cbn. rewrite <- app_assoc.
     apply (inv_app h); try exact I.
     + rewrite app_length; lia.
@@ -262,6 +264,11 @@ Proof.
     + intros j gj N Hj. assert (N' : i <> j) by congruence. destruct (I2 _ _ _ _ N' Hi Hj) as (a & b & c & d).
       apply (sep_fresh h); [apply (I1 _ _ Hj)|right; rewrite Ec; split; assumption|].
       destruct SP as [SP|[SP _]]; [right; rewrite SP; split; assumption|left; lia].
+  - destruct (nth_error objs0 i) as [g|] eqn:Hi; [|exact I]. destruct (I1 _ _ Hi) as [OKi Ci].
+    unfold set_obj; cbn. eapply (inv_upd h); try exact I; try exact Hi; try (intros; apply frame_refl); try lia.
+    + exact OKi.
+    + exact Ci.
+    + intros j gj N Hj. assert (N' : i <> j) by congruence. exact (I2 _ _ _ _ N' Hi Hj).
   - destruct (nth_error objs0 i) as [g|] eqn:Hi; [|exact I]. destruct (I1 _ _ Hi) as [OKi Ci].
     unfold set_obj; cbn. eapply (inv_upd h); try exact I; try exact Hi; try (intros; apply frame_refl); try lia.
     + exact OKi.
